@@ -1172,3 +1172,84 @@ def shrink_deferred(exe, ops, key, max_runs=300):
         if bad(t): cur = t
         else: i += 1
     return cur
+
+
+# ------------------------------------------------------------------ assignment between relatives
+def gen_assign(rng, hid, nsteps):
+    """Manifolds AND CrossSections: explicit copy-assignment x = y, self-assignment, move-assignment between
+    RELATIVES (parent/child by a lazy transform, siblings from one parent, copies), with and without an observation in
+    between, in mode lazy0 (nothing is inspected unless looked at).  Afterwards x must hash like y (the N line says
+    copy:y) and y must not change: the ordinary lifetime/copy oracle of judge()."""
+    ops, kind = [], {}
+    def free():
+        f = [s for s in range(NSLOT) if s not in kind]
+        return rng.choice(f) if f and len(kind) < MAXLIVE else None
+    def ctor(k):
+        d = free()
+        if d is None: return None
+        if k == "M":
+            c = rng.choice(["cube", "sph", "cyl", "tet"])
+            if c == "cube": ops.append("cube:%d:%d:%d:%d:%d" % (d, _r(rng, 2, 8), _r(rng, 2, 8), _r(rng, 2, 8), rng.randint(0, 1)))
+            elif c == "sph": ops.append("sph:%d:%d:%d" % (d, _r(rng, 2, 6), rng.choice([4, 6, 8])))
+            elif c == "cyl": ops.append("cyl:%d:%d:%d:%d:%d:%d" % (d, _r(rng, 2, 8), _r(rng, 1, 4), rng.choice([0, 1, 2, 4]), rng.choice([4, 6, 8]), rng.randint(0, 1)))
+            else: ops.append("tet:%d" % d)
+        else:
+            c = rng.choice(["sq", "circ", "poly"])
+            if c == "sq": ops.append("sq:%d:%d:%d:%d" % (d, _r(rng, 1, 8), _r(rng, 1, 8), rng.randint(0, 1)))
+            elif c == "circ": ops.append("circ:%d:%d:%d" % (d, _r(rng, 1, 6), rng.choice([3, 4, 6, 8])))
+            else: ops.append("poly:%d:%d" % (d, _r(rng, 0, 3)))
+        kind[d] = k
+        return d
+    def child(s):
+        d = free()
+        if d is None: return None
+        if kind[s] == "M":
+            k = rng.choice(["tr", "rot", "sc", "xf"])
+            if k == "tr": ops.append("tr:%d:%d:%d:%d:%d" % (d, s, _nz(rng, -9, 9), _r(rng, -4, 4), _r(rng, -4, 4)))
+            elif k == "rot": ops.append("rot:%d:%d:%d:%d:%d" % (d, s, rng.choice([1, 2, 3, 5, 6]), _r(rng, 0, 6), _r(rng, 0, 3)))
+            elif k == "sc": ops.append("sc:%d:%d:%d:%d:%d" % (d, s, _nz(rng, -6, 6), _nz(rng, 2, 6), _nz(rng, 1, 6)))
+            else: ops.append("xf:%d:%d:%d" % (d, s, rng.choice([1, 4, 5])))
+        else:
+            k = rng.choice(["ctr", "ctr", "crot", "csc", "cmir", "cxf"])
+            if k == "ctr": ops.append("ctr:%d:%d:%d:%d" % (d, s, rng.choice([1, -3, 5, 32, 400]), _r(rng, -6, 6)))
+            elif k == "crot": ops.append("crot:%d:%d:%d" % (d, s, rng.choice([1, 3, 6, -5])))
+            elif k == "csc": ops.append("csc:%d:%d:%d:%d" % (d, s, _nz(rng, -4, 8), _nz(rng, 2, 8)))
+            elif k == "cmir": ops.append("cmir:%d:%d:%d:%d" % (d, s, _nz(rng, -2, 2), _r(rng, 0, 2)))
+            else: ops.append("cxf:%d:%d:%d" % (d, s, _r(rng, 1, 4)))
+        kind[d] = kind[s]
+        return d
+    while len(ops) < nsteps:
+        k = rng.choice("MC")
+        a = ctor(k)
+        if a is None:
+            s = rng.choice(list(kind)); ops.append("drop:%d" % s); del kind[s]; continue
+        fam = [a]
+        for _ in range(rng.randint(1, 3)):
+            how = rng.random()
+            src = rng.choice(fam)
+            if how < 0.7: c = child(src)
+            else:
+                c = free()
+                if c is not None:
+                    ops.append("cp:%d:%d" % (c, src)); kind[c] = k
+            if c is not None: fam.append(c)
+        if rng.random() < 0.3:
+            ops.append("look:%d" % rng.choice(fam))          # an observation in between (forces one relative)
+        for _ in range(rng.randint(1, 3)):
+            if len(fam) < 2: break
+            x, y = rng.sample(fam, 2)
+            r = rng.random()
+            if r < 0.6:
+                ops.append("cpa:%d:%d" % (x, y))
+            elif r < 0.75:
+                ops.append("self:%d" % x)
+            else:
+                ops.append("mva:%d:%d" % (x, y)); ops.append("drop:%d" % y); fam.remove(y); kind.pop(y, None)
+            if rng.random() < 0.3:
+                ops.append("look:%d" % rng.choice(fam))
+        for s in fam:
+            if rng.random() < 0.8: ops.append("look:%d" % s)
+        for s in fam:
+            if s in kind and rng.random() < 0.6:
+                ops.append("drop:%d" % s); del kind[s]
+    return ops[:60]
